@@ -21,6 +21,7 @@ EXPLANATION = (
     "directories and re-initialises state point files: its own mutating primitives are renames, and the only mutating "
     "callee is Job.init."
     ' Data read from a state point file is not *used* (in-memory update, return, registration) before the comparison; check() validates job by job (not through one bulk map call); repair() looks state points up cache-first; its loops carry nothing between jobs.'
+    ' (g) What _read_cache reads from the file overrides unvalidated entries in memory (repair relies on it).'
 )
 UNDECIDED = ("Detection for every byte-level damage depends on json and MD5 semantics and is not decided; nor is the "
              "content of documents / data files after repair (only that repair has no code that touches them).")
